@@ -235,7 +235,7 @@ def replay(ctx, payload):
     c = payload["violation"]["case"]
     prev = L.set_tz(c.get("TZ") or "UTC")
     try:
-        call = L.Call(c["text"], default=datetime.datetime(2001, 1, 1), dayfirst=c.get("dayfirst"), yearfirst=c.get("yearfirst"))
+        call = L.call_from_case(c)
         a, _, _ = L.run_impl(call)
         m = L.model_answers(ctx, [call])[0]
     finally:
